@@ -84,10 +84,10 @@ def run(replay=None):
     localised = 0
     B = 30
     # quick: traces up to 3 messages, 3 time steps.  thorough: the same for ALL shapes, and traces up to 4 messages (2 time
-    # steps) for every sixth shape and every shape with a derived disjunction or a literal predicate
+    # steps) for every tenth shape and every shape with a derived disjunction or a literal predicate
     passes = [('FALSE', 3, '0, 1, 2', props), ('TRUE', 3, '0, 1, 2', [p for p in props if p['orig']['scope']['scope_type'] == 'AFTER_UNTIL'])]
     if thorough:
-        deep = [p for i, p in enumerate(props) if i % 6 == 0 or '[an alternative moved' in p['text'] or 'False' in p['text']]
+        deep = [p for i, p in enumerate(props) if i % 10 == 0 or '[an alternative moved' in p['text'] or 'False' in p['text']]
         passes += [('FALSE', 4, '0, 1', deep), ('TRUE', 4, '0, 1', [p for p in deep if p['orig']['scope']['scope_type'] == 'AFTER_UNTIL'][::2])]
     maxlen, deltas = (4, '0, 1 (3 messages: 0, 1, 2)') if thorough else (3, '0, 1, 2')
     for react, maxlen_, deltas_, sel in passes:
